@@ -213,7 +213,9 @@ func (vc *VC) doCall(c *ssa.CallCommon, v ssa.Value, st *State, pos token.Pos) *
 		args = append(args, vc.val(a))
 	}
 	if vc.fc != nil && vc.inlineDepth == 0 {
+		vc.hintArgs = args
 		vc.hintsAtCall("before:", key, fn, st)
+		vc.hintArgs = nil
 		for i, cp := range vc.fc.CallPres {
 			isDyn := cp.Callee == "dynamic" && fn == nil && !c.IsInvoke() && (key == "" || strings.Contains(key, "functype:"))
 			if !isDyn && (cp.Callee == "dynamic" || (!strings.Contains(key, cp.Callee) && !(fn != nil && strings.Contains(fn.String(), cp.Callee)))) {
@@ -1322,6 +1324,10 @@ func (vc *VC) hintsAtCall(prefix, key string, fn *ssa.Function, st *State) {
 		}
 		seen[h.At] = true
 		henv := vc.newEnv(st, vc.entrySt)
+		// hints placed before a call may speak about its arguments: arg0, arg1, ...
+		for j, a := range vc.hintArgs {
+			henv.vars[fmt.Sprintf("arg%d", j)] = a
+		}
 		if vc.lastResult != nil {
 			henv.vars["lastresult"] = *vc.lastResult
 			for i, t := range vc.lastResult.Tup {
